@@ -25,6 +25,7 @@ import (
 	"path/filepath"
 	"sort"
 	"strings"
+	"sync"
 	"sync/atomic"
 	"syscall"
 	"unicode/utf8"
@@ -62,7 +63,8 @@ func main() {
 		"Add -> pack (root kind in {PackManifest v1.1, v1.0, deprecated Pack as artifact manifest, deprecated Pack as image manifest, hand-built Docker v2 manifest, OCI index over two such manifests with the layers split or shared}) -> Copy (-> Copy) into a second file store; restored trees compared with on-disk snapshots of the sources (paths, types, bytes, link targets, modes); " +
 		"phase repro: twin trees differing in timestamps, owners, creation order and hard links must give equal descriptors under TarReproducible; " +
 		"phase tamper: a directory blob with a wrong io.deis.oras.content.digest (or changed archive under the recorded digest) must be refused, the untampered one accepted and restored; " +
-		"phase dup: 2-4 names with equal bytes, and (1 in 3) a directory together with a plain named file holding the bytes of its tar+gzip blob, either one listed first, Copy concurrency in {default, 1, 2, 8}, with and without ForceCAS; (1 in 2) a file with other bytes already at one of the single-file names in the second working directory, DisableOverwrite on or off: the copy either fails with ErrOverwriteDisallowed or every name holds the right bytes. " +
+		"phase dup: 2-4 names with equal bytes, and (1 in 3) a directory together with a plain named file holding the bytes of its tar+gzip blob, either one listed first, Copy concurrency in {default, 1, 2, 8}, with and without ForceCAS; (1 in 3) a titled foreign (non-distributable) layer listed first, which Copy skips; (1 in 2) a file with other bytes already at one of the single-file names in the second working directory, DisableOverwrite on or off: the copy either fails with ErrOverwriteDisallowed or every name holds the right bytes. " +
+		"phase conc (also under the race detector): 3-8 goroutines add 2-5 directories each at the same time to 1-3 file stores; every Add must succeed, every descriptor must describe its stored bytes, every directory must round-trip. " +
 		"distinct = (tree-shape hashes of the items, option set, intermediate, umask); non-trivial = some tree has >= 1 nested directory, >= 1 symlink or long name and >= 3 files " +
 		"(phase dup: >= 2 equal-bytes names with one media type, so that Copy de-duplicates them)")
 	r.Assume("the checks run as root: permission-denied effects (unreadable sources, unwritable restored directories) do not occur and are not explored")
@@ -84,6 +86,14 @@ func main() {
 	worker.Run(r, worker.Opts{Phase: "repro", Total: r.N(160, 2500), Batch: r.N(10, 40), OnResult: tally})
 	worker.Run(r, worker.Opts{Phase: "tamper", Total: r.N(160, 2500), Batch: r.N(10, 40), OnResult: tally})
 	worker.Run(r, worker.Opts{Phase: "dup", Total: r.N(360, 3500), Batch: r.N(10, 40), OnResult: tally})
+	worker.Run(r, worker.Opts{Phase: "conc", Total: r.N(60, 600), Batch: r.N(5, 20), OnResult: tally})
+	if bin := os.Getenv("VERIF_RACE_BIN"); bin != "" {
+		raceDir, _ := os.MkdirTemp("", "verif-c12-race-")
+		worker.Run(r, worker.Opts{Phase: "conc-race", Total: r.N(24, 200), Batch: r.N(4, 10), Bin: bin, OnResult: tally,
+			Env: []string{"GORACE=halt_on_error=0 log_path=" + filepath.Join(raceDir, "race")}})
+		r.Set("race_reports_in_library", countRaceReports(raceDir, r))
+		os.RemoveAll(raceDir)
+	}
 	if len(violKeys) > 0 {
 		r.Set("cases_per_violation_key", violKeys)
 	}
@@ -101,6 +111,8 @@ func main() {
 		{"dup_restored_by_store", int64(r.N(20, 300))},
 		{"dup_forcecas_deduped", int64(r.N(10, 150))},
 		{"dup_dir_and_archive_restored", int64(r.N(8, 120))},
+		{"dup_restored_after_foreign_layer", int64(r.N(8, 120))},
+		{"concurrent_adds", int64(r.N(800, 8000))},
 		{"dup_preexisting_file_planted", int64(r.N(60, 600))},
 		{"dup_overwrite_refused", int64(r.N(20, 200))},
 		{"dup_preexisting_file_overwritten", int64(r.N(10, 100))},
@@ -164,6 +176,8 @@ func runCase(phase string, i int) (res worker.Result) {
 		caseRepro(&res, rng, root, i)
 	case "tamper":
 		caseTamper(&res, rng, root, i)
+	case "conc", "conc-race":
+		caseConcurrentAdd(&res, rng, root, i)
 	}
 	res.Count("hook_restoreDuplicates", hookHits.Load())
 	return res
@@ -407,8 +421,9 @@ func casePipe(res *worker.Result, rng *rand.Rand, root string, idx int, dupPhase
 	}
 
 	mkind := "" // manifest kind of the root, set when packed
+	foreignTitle := ""
 	wit := func() map[string]any {
-		return map[string]any{"options": o.String(), "intermediate": mid, "umask": fmt.Sprintf("%03o", umask), "manifest": mkind, "items": items}
+		return map[string]any{"options": o.String(), "intermediate": mid, "umask": fmt.Sprintf("%03o", umask), "manifest": mkind, "foreign_titled_layer": foreignTitle, "items": items}
 	}
 
 	// ---- build sources (under a neutral umask), snapshot them
@@ -537,6 +552,26 @@ func casePipe(res *worker.Result, rng *rand.Rand, root string, idx int, dupPhase
 	var layers []ocispec.Descriptor
 	for _, it := range items {
 		layers = append(layers, it.desc)
+	}
+	foreignAt := -1
+	if dupPhase && rng.IntN(3) == 0 {
+		// a foreign (non-distributable) layer with a title: Copy skips it, so it is legitimately absent from every
+		// store when the manifest arrives; the names listed after it must be restored all the same
+		junk := fillBytes(entry{Size: 64, Fill: 2, Seed: rng.Uint64()})
+		fd := ocispec.Descriptor{
+			MediaType:   []string{ocispec.MediaTypeImageLayerNonDistributable, ocispec.MediaTypeImageLayerNonDistributableGzip}[rng.IntN(2)], //nolint:staticcheck
+			Digest:      digest.FromBytes(junk),
+			Size:        int64(1000 + rng.IntN(1<<20)),
+			URLs:        []string{"https://layers.example.invalid/" + asciiName(rng, 8)},
+			Annotations: map[string]string{ocispec.AnnotationTitle: "foreign-" + asciiName(rng, 6) + ".tar"},
+		}
+		foreignAt = 0
+		if rng.IntN(4) == 0 {
+			foreignAt = rng.IntN(len(layers) + 1)
+		}
+		layers = append(layers[:foreignAt], append([]ocispec.Descriptor{fd}, layers[foreignAt:]...)...)
+		foreignTitle = fd.Annotations[ocispec.AnnotationTitle]
+		res.Count("dup_cases_with_foreign_titled_layer", 1)
 	}
 	manifest, kind, err := packRoot(rng, fs1, layers)
 	mkind = kind
@@ -868,6 +903,9 @@ func casePipe(res *worker.Result, rng *rand.Rand, root string, idx int, dupPhase
 				res.Count("dup_dir_and_archive_restored", 1)
 				res.Observe("dup_dir_and_archive_order_x_concurrency", fmt.Sprintf("%s/%d/unpack=%v", withDir, copyOpts.Concurrency, !o.SkipUnpack))
 			}
+			if sameMT >= 2 && foreignAt == 0 {
+				res.Count("dup_restored_after_foreign_layer", 1)
+			}
 			if sameMT >= 2 {
 				res.Count("dup_restored_by_store", 1)
 				res.Observe("dup_restored_under_manifest_kinds", mkind)
@@ -1157,6 +1195,200 @@ func prepopulate(rng *rand.Rand, root, dstWD string, k int, it *item, o options,
 	snap, err := snapshot(dstPath)
 	it.oldSnap = snap
 	return err
+}
+
+// ----------------------------------------------------------- concurrent Add
+
+// countRaceReports counts DATA RACE blocks with a library frame.
+func countRaceReports(dir string, r *evidence.Run) int {
+	files, _ := filepath.Glob(filepath.Join(dir, "race*"))
+	n := 0
+	for _, f := range files {
+		b, _ := os.ReadFile(f)
+		for _, blk := range strings.Split(string(b), "==================") {
+			if !strings.Contains(blk, "WARNING: DATA RACE") {
+				continue
+			}
+			lib := false
+			for _, l := range strings.Split(blk, "\n") {
+				if strings.Contains(l, "oras.land/oras-go/v2/") && !strings.Contains(l, "verifharness") {
+					lib = true
+				}
+			}
+			if lib {
+				n++
+				r.Violation("race", "data race reported by the race detector in library code", blk)
+			} else if strings.Contains(blk, "verifharness") {
+				r.Violation("harness:race", "data race inside the harness itself", blk)
+			} else {
+				n++
+				r.Violation("race", "data race reported by the race detector below the library (no harness frame)", blk)
+			}
+		}
+	}
+	return n
+}
+
+// caseConcurrentAdd: several goroutines add directories at the same time, to
+// the same store or to different ones; then the usual oracles on every result.
+func caseConcurrentAdd(res *worker.Result, rng *rand.Rand, root string, idx int) {
+	nStores := 1 + rng.IntN(3)
+	nG := 3 + rng.IntN(6)
+	reproducible := rng.IntN(2) == 0
+	type job struct {
+		it    *item
+		store int
+		err   error
+	}
+	var jobs [][]*job // per goroutine
+	var all []*job
+	var taken []string
+	for g := 0; g < nG; g++ {
+		var mine []*job
+		for k := 2 + rng.IntN(4); k > 0; k-- {
+			t := genDirTree(rng, treeOpts{maxDirs: 4, maxFiles: 8, maxLinks: 2, oddNames: rng.IntN(4) == 0, reuse: rng.IntN(3) == 0})
+			var title, clean string
+			for {
+				title, clean = genTitle(rng)
+				if !conflicts(clean, taken) {
+					break
+				}
+			}
+			taken = append(taken, clean)
+			it := &item{Name: title, Tree: t, dupOf: -1}
+			it.srcPath = filepath.Join(root, "src", fmt.Sprint(len(all)), "t")
+			it.AddPath = it.srcPath
+			j := &job{it: it, store: rng.IntN(nStores)}
+			mine = append(mine, j)
+			all = append(all, j)
+		}
+		jobs = append(jobs, mine)
+	}
+	wit := func() map[string]any {
+		var its []*item
+		for _, j := range all {
+			its = append(its, j.it)
+		}
+		return map[string]any{"stores": nStores, "goroutines": nG, "reproducible": reproducible, "items": its}
+	}
+	for _, j := range all {
+		if err := os.MkdirAll(filepath.Dir(j.it.srcPath), 0o755); err != nil {
+			res.Violate("harness:build", err.Error(), nil)
+			return
+		}
+		if err := j.it.Tree.build(j.it.srcPath, buildOpts{rng: rng}); err != nil {
+			res.Violate("harness:build", err.Error(), nil)
+			return
+		}
+		snap, err := snapshot(j.it.srcPath)
+		if err != nil {
+			res.Violate("harness:snapshot", err.Error(), nil)
+			return
+		}
+		j.it.src = snap
+	}
+	var srcs []*file.Store
+	for k := 0; k < nStores; k++ {
+		wd := filepath.Join(root, fmt.Sprintf("wd%d", k))
+		os.Mkdir(wd, 0o755)
+		s, err := file.New(wd)
+		if err != nil {
+			res.Violate("harness:file.New", err.Error(), nil)
+			return
+		}
+		defer s.Close()
+		s.TarReproducible = reproducible
+		srcs = append(srcs, s)
+	}
+	start := make(chan struct{})
+	var wg sync.WaitGroup
+	for _, mine := range jobs {
+		wg.Add(1)
+		go func(mine []*job) {
+			defer wg.Done()
+			<-start
+			for _, j := range mine {
+				j.it.desc, j.err = srcs[j.store].Add(ctx, j.it.Name, "", j.it.AddPath)
+			}
+		}(mine)
+	}
+	close(start)
+	wg.Wait()
+	res.Count("concurrent_adds", int64(len(all)))
+	res.Count("concurrent_add_cases", 1)
+	bad := false
+	for _, j := range all {
+		if j.err != nil {
+			res.Violate("concurrent-add:error", fmt.Sprintf("Add of directory %s while %d goroutines add directories to %d stores: %v", q(j.it.Name), nG, nStores, j.err), wit())
+			bad = true
+			continue
+		}
+		for _, d := range checkDescriptor(srcs[j.store], j.it, res) {
+			res.Violate(d.Key+":concurrent-add", fmt.Sprintf("directory %s added concurrently: %s", q(j.it.Name), d.What), wit())
+			bad = true
+		}
+	}
+	if bad {
+		return
+	}
+	// every directory must round-trip
+	for k, s := range srcs {
+		var layers []ocispec.Descriptor
+		var mine []*job
+		for _, j := range all {
+			if j.store == k {
+				layers = append(layers, j.it.desc)
+				mine = append(mine, j)
+			}
+		}
+		if len(layers) == 0 {
+			continue
+		}
+		man, err := oras.PackManifest(ctx, s, oras.PackManifestVersion1_1, "application/vnd.test.c12", oras.PackManifestOptions{Layers: layers})
+		if err != nil {
+			res.Violate("pipeline-error:Pack:concurrent-add", err.Error(), wit())
+			return
+		}
+		dstWD := filepath.Join(root, fmt.Sprintf("dst%d", k))
+		os.Mkdir(dstWD, 0o755)
+		dst, err := file.New(dstWD)
+		if err != nil {
+			res.Violate("harness:file.New", err.Error(), nil)
+			return
+		}
+		err = oras.CopyGraph(ctx, s, dst, man, oras.DefaultCopyGraphOptions)
+		if err != nil {
+			dst.Close()
+			res.Violate("pipeline-error:CopyGraph:concurrent-add", fmt.Sprintf("copy of concurrently added directories failed: %v", err), wit())
+			return
+		}
+		for _, j := range mine {
+			got, err := snapshot(filepath.Join(dstWD, filepath.FromSlash(j.it.Name)))
+			if err != nil {
+				res.Violate("not-restored:dir:concurrent-add", fmt.Sprintf("directory %s: %v", q(j.it.Name), err), wit())
+				continue
+			}
+			for _, d := range compareTrees(j.it.src, got, 0o022, false) {
+				if strings.HasPrefix(d.Key, "unjudged:") {
+					continue
+				}
+				res.Violate(d.Key+":concurrent-add", fmt.Sprintf("directory %s added concurrently: %s", q(j.it.Name), d.What), wit())
+			}
+			res.Count("entries_compared", int64(len(j.it.src)))
+		}
+		dst.Close()
+	}
+	var shapes []string
+	for _, j := range all {
+		shapes = append(shapes, j.it.Tree.shape())
+	}
+	sort.Strings(shapes)
+	res.Key = fmt.Sprintf("conc|s%d|g%d|n%d|r%v|%s", nStores, nG, len(all), reproducible, strings.Join(shapes, "+"))
+	res.NT = len(all) >= 8
+	res.MaxOf("max_concurrent_adders", int64(nG))
+	if idx%29 == 0 {
+		res.Sample = map[string]any{"phase": "conc", "stores": nStores, "goroutines": nG, "directories": len(all)}
+	}
 }
 
 // ------------------------------------------------------------ manifest kinds
